@@ -141,7 +141,9 @@ func TestC19(t *testing.T) {
 			if mask&(1<<uint(i%64)) != 0 {
 				st := 0
 				if rng.IntN(7) == 0 {
-					st = []int{1, 3}[rng.IntN(2)]
+					// 1, 3: explicit return status; 101: a command fails in the middle of the body (the strict
+					// mode of the bundled library makes that a failure of the handler: nothing after it runs)
+					st = []int{1, 3, 101}[rng.IntN(3)]
 				}
 				defined[h] = st
 			}
@@ -161,7 +163,11 @@ func TestC19(t *testing.T) {
 			if !ok {
 				continue
 			}
-			sb.WriteString(fmt.Sprintf("function %s() {\n  echo \"%s|${BINDING_CONTEXT_CURRENT_INDEX}|${BINDING_CONTEXT_CURRENT_BINDING}|$(context::jq -r '.binding // \"unknown\"')\" >> %s\n  return %d\n}\n", h, h, trace, st))
+			tail := fmt.Sprintf("return %d", st)
+			if st == 101 {
+				tail = fmt.Sprintf("false\n  echo \"CONTINUED-AFTER-FAILED-COMMAND|%s\" >> %s\n  return 0", h, trace)
+			}
+			sb.WriteString(fmt.Sprintf("function %s() {\n  echo \"%s|${BINDING_CONTEXT_CURRENT_INDEX}|${BINDING_CONTEXT_CURRENT_BINDING}|$(context::jq -r '.binding // \"unknown\"')\" >> %s\n  %s\n}\n", h, h, trace, tail))
 		}
 		sb.WriteString("hook::run \"$@\"\n")
 		script := filepath.Join(c.Dir, "hook.sh")
